@@ -349,7 +349,7 @@ func parseSet(set string) ([]rng2, bool) {
 // and MOVE hand out the new UIDs).  false: in the order the set enumerates them (element by element, ascending inside
 // a range, each message once at its first mention) -- IMAP leaves the order in which a server walks through a
 // sequence set open (RFC 9051 section 9: "servers MAY ... execute the sequence in any order"), so `COPY 3,1 box` may
-// create the copies as 3,1.  true: ascending sequence number regardless of how the set is written.
+// create the copies as 3,1.  true: ascending UID (= ascending sequence number) regardless of how the set is written.
 const targetsAscending = true // since /repo b3397cc COPY and MOVE hand the messages over in ascending UID order (COPYUID pairing)
 
 // resolveRows: the rows of the view a message set denotes (each once; order see targetsAscending); valid = false if
@@ -419,7 +419,8 @@ func resolveRows(view []vrow, set string, uid bool) ([]vrow, bool) {
 		}
 	}
 	if targetsAscending {
-		sort.SliceStable(out, func(i, j int) bool { return out[i].Seq < out[j].Seq })
+		// Mailbox.Copy / Mailbox.Move sort the selected snapshot messages by UID (a view is ordered by UID, so this is the sequence order)
+		sort.SliceStable(out, func(i, j int) bool { return out[i].UID < out[j].UID })
 	}
 	return out, true
 }
